@@ -36,7 +36,6 @@ Variable u : Unspec.
 
 (* ---- memory through whatever object is installed in the Memory field ----
    stated on the World alone: an access changes nothing of the CPU but the world *)
-Definition w_log (w : World) (e : event) : World := mk_World (ram w) (e :: trace w) (inputs w).
 Definition wget (w : World) (m : MemRef) (a : Z) : World * Z :=
   let user := let v := u8 (ram w a) in (w_log w (EvRd a v), v) in
   match m with
@@ -233,8 +232,15 @@ Definition exec (m : mode) (i : instr) (cpu : CPU) : CPU :=
   | LD_A_R => let v := g_IR_Lo cpu in set_F (set_A cpu v) (ldair_flags v (g_IFF2 cpu) (get_F cpu))
   | LD_I_A => s_IR_Hi cpu (get_A cpu)
   | LD_R_A => s_IR_Lo cpu (get_A cpu)
-  | PUSH p => push16 cpu (get_rp m p cpu)
-  | POP p => let '(cpu, w) := pop16 cpu in set_rp m p cpu w
+  | PUSH p =>
+    (* the same two bytes at the same two addresses for every register pair; this implementation
+       stores IX/IY low byte first (the order inside one instruction is not part of the contract) *)
+    match m with MHL => push16 cpu (get_rp m p cpu) | _ => push16_lowfirst cpu (get_rp m p cpu) end
+  | POP p =>
+    match m with
+    | MHL => let '(cpu, w) := pop16 cpu in set_rp m p cpu w
+    | _ => let '(cpu, w) := pop16_plus2 cpu in set_rp m p cpu w
+    end
   | ALU8 o s =>
     let '(cpu, v) := rd_opnd m (is_mem s) s cpu in
     let '(r, f) := alu8 o (get_A cpu) v (get_F cpu) in
@@ -354,8 +360,8 @@ Definition exec_idxcb (m : mode) (d : Z) (i : instr) (cpu : CPU) : CPU :=
   end.
 
 (* ---- one instruction: fetch, decode (following prefixes), execute ---- *)
-Definition step_idx (m : mode) (cpu : CPU) : CPU :=
-  let '(cpu, c1) := fetch_m1 cpu in
+(* after a DD/FD prefix and its second opcode byte c1 *)
+Definition exec_idx (m : mode) (c1 : Z) (cpu : CPU) : CPU :=
   match decode_idx c1 with
   | PREFIX_CB =>
     let '(cpu, d) := fetch8 cpu in
@@ -363,6 +369,8 @@ Definition step_idx (m : mode) (cpu : CPU) : CPU :=
     exec_idxcb m d (decode_idxcb c3) cpu
   | i => exec m i cpu
   end.
+Definition step_idx (m : mode) (cpu : CPU) : CPU :=
+  let '(cpu, c1) := fetch_m1 cpu in exec_idx m c1 cpu.
 Definition step_instr (cpu : CPU) : CPU :=
   let '(cpu, c0) := fetch_m1 cpu in
   match decode_main c0 with
